@@ -210,10 +210,11 @@ def run_binary(ck, rng, rounds, stats):
             text = hostile(rng)
             nm = sb.add(src, rng.choice(['new', 'cur']), text)
             msgs.append((nm, text))
-        if round_ < len(CONFIGS) and round_ % 5 != 4:
+        # the first pass over the configurations is in maildir mode and sees the fixed corpus; stdin mode afterwards
+        stdin_mode = (round_ % 5 == 4) and round_ >= len(CONFIGS)
+        if round_ < len(CONFIGS):
             for text in odd_messages():
                 msgs.append((sb.add(src, 'new', text), text))
-        stdin_mode = (round_ % 5 == 4)
         args = ['-d'] if name == 'dry' else []
         env = dict(SAN_ENV)
         if name == 'dry':
@@ -365,7 +366,7 @@ def run(ck):
     q = ck.tier == 'quick'
     run_scan(ck, rng, 3000 if q else 60000, stats)
     run_api(ck, rng, 1200 if q else 30000, stats)
-    run_binary(ck, rng, 16 if q else 400, stats)
+    run_binary(ck, rng, 20 if q else 400, stats)
     run_memcheck(ck, rng, 4 if q else 48, stats)
     ck.coverage.update({
         'evaluations': stats['api'] + stats['runs'] + stats['scan'],
